@@ -3,6 +3,10 @@
 import json, os
 V = os.path.dirname(os.path.abspath(__file__))
 CHECKS = {
+ "C17": dict(
+  text="Randomised search (rapid) over generated Go packages annotated with the documented grammar (swagger:meta, swagger:model with validations and items.* validations, swagger:response with headers and bodies, swagger:route with its sections or swagger:operation with a YAML body, swagger:parameters for every location with validations and collection formats, optional input spec to merge into); in 30% of the cases arbitrary comment lines (annotation fragments, section headers, YAML punctuation, control and non-ASCII characters) are inserted at random positions. codescan.Run in process. Oracle, grammar mode: no panic, no diagnostic, validate.Spec passes, and every declared fact (one per annotation line) is at its place in the document with the declared value. Noise mode: no panic. Three defects repaired (multiple of ignored; two scanner crashes).",
+  note="The program generator only uses annotation forms shown in docs/reference/annotations and the fixtures (alternative keyword spellings drawn at random); in noise mode only totality is asserted because the injected text may legitimately change the document.",
+  tech="property-based testing (rapid): program generation with facts known by construction + robustness fuzzing of comment text"),
  "C16": dict(
   text="Randomised search (rapid) over generated Go packages of annotated model types (type grammar: every basic kind, time.Time, interface{}, []byte, pointers, slices, arrays, string-keyed maps, models by value / pointer / slice / map, anonymous structs, named types and aliases, embedded structs, json tags rename / omitempty / '-' / ',string', unexported and ignored fields). The package is scanned in-process by codescan.Run and compiled into a reflection harness. Oracle 1: json.Marshal of the zero, the fully and the half populated value of every model validates against the scanned definition (double oracle: self-written validator and go-openapi/validate must both reject). Oracle 2: the required-only and the all-properties document built from the scanned definition decodes into the type. Two defects repaired (fix: commits), four root causes listed as known findings.",
   note="null (nil pointer / slice / map / interface) is left out of the comparison because Swagger 2.0 cannot express it; canonical documents use small integers, so overflow of narrow integer kinds is not probed; the scanner runs with gotypesalias=0 like the binary built from the tree (go 1.21 module).",
